@@ -291,6 +291,55 @@ def deep_history(task):
     return count, msgs
 
 
+def lattice_sweep(task):
+    """every point of a decimal lattice over the box (coordinates that are not dyadic, so that differences with the
+    generator's constants round): the evaluation returns the supplied holder, leaves the point's bytes and dtype
+    alone, and gives the same value when the point is evaluated again after all the others"""
+    fam, ki, per_axis = task["fam"], task["ki"], task["per_axis"]
+    spec = fam_specs()[fam]
+    obj = build(spec, spec["keys"][ki])
+    n = dim_of(obj)
+    lo = np.array(obj.lowerBoundOfFloatVariables, dtype=float)
+    up = np.array(obj.upperBoundOfFloatVariables, dtype=float)
+    axes = [[lo[i] + (up[i] - lo[i]) * min(1.0, (j + 0.137 * ((i + j) % 3)) / (per_axis - 1)) for j in range(per_axis)]
+            for i in range(n)]
+    if task.get("decimal"):
+        # decimal literals of very different magnitudes (0.9 ... 0.001, both signs, 0): small coordinates far from the
+        # generator's centres, where a subtraction and re-addition does not round-trip
+        dec = [0.9, 0.7, 0.5, 0.3, 0.1, 0.05, 0.01, 0.001]
+        dec = sorted([-v for v in dec] + dec + [0.0])
+        if n == 3:
+            dec = dec[::2]
+        elif n >= 4:
+            dec = [-0.7, -0.3, -0.05, 0.01, 0.1, 0.5, 0.9]
+        axes = [sorted({v for v in dec if lo[i] <= v <= up[i]} | {lo[i] + (up[i] - lo[i]) * abs(v) for v in dec})
+                for i in range(n)]
+    fid = spec.get("fids", [None])[0]
+    msgs, first = [], []
+    count = 0
+    for c in itertools.product(*axes):
+        arr = np.array(c, dtype=np.double)
+        keep = arr.tobytes()
+        h = holder(fid)
+        out = obj.Calculate(Point(arr, []), h)
+        count += 1
+        if out is not h:
+            msgs.append(f"{fam}{spec['keys'][ki]}: Calculate at {list(c)} did not return the supplied value holder")
+        elif arr.tobytes() != keep or arr.dtype != np.double:
+            msgs.append(f"{fam}{spec['keys'][ki]}: Calculate modified the point it was given: {list(c)} became {arr.tolist()} "
+                        f"(difference {(arr - np.array(c)).tolist()})")
+        if msgs:
+            return count, msgs
+        first.append(h.value)
+    for c, v in zip(itertools.product(*axes), first):
+        got = obj.Calculate(Point(np.array(c, dtype=np.double), []), holder(fid)).value
+        count += 1
+        if not (got == v or (got != got and v != v)):
+            return count, [f"{fam}{spec['keys'][ki]}: value at {list(c)} was {v!r} in the first sweep over the lattice and "
+                           f"{got!r} in the second"]
+    return count, []
+
+
 def cross_family(refs):
     """interleave three families on shared process state: evaluate everything, then everything again in another order"""
     fams = ["GKLS2", "Grishagin", "Hill", "Shekel", "GKLS4"]
@@ -349,6 +398,18 @@ def run(ctx):
         deep += n
         for m in msgs:
             res.add_violation(dict(driver="deep", fam=t["fam"], reps=t["reps"], message=m, sig={}))
+    ltasks = []
+    for f in fams:
+        nd = dim_of(build(fam_specs()[f], fam_specs()[f]["keys"][0]))
+        per = {1: 801, 2: 41, 3: 13, 4: 7}.get(nd, 5) if not th else {1: 4001, 2: 101, 3: 25, 4: 11}.get(nd, 7)
+        for ki in (0, 1):
+            ltasks.append(dict(fam=f, ki=ki, per_axis=per))
+            ltasks.append(dict(fam=f, ki=ki, per_axis=per, decimal=True))
+    lat = 0
+    for t, (n, msgs) in zip(ltasks, pmap(lattice_sweep, ltasks)):
+        lat += n
+        for m in msgs:
+            res.add_violation(dict(driver="lattice", **t, message=m, sig={}))
     res.cov = dict(
         states=states, transitions=trans, traces_validated_against_impl=seqs + nc, evaluations=trans + seqs + nc,
         distinct_nontrivial=seqs,
@@ -356,7 +417,7 @@ def run(ctx):
              "evaluate X at p_j with fresh / reused holder} per family; traces = unmerged evaluation sequences after "
              "constructing A, B, C, plus cross-family interleavings; every evaluation compared with reference values from a "
              "fresh sub-process",
-        exhaustive=all(v["closed"] for v in info.values()), per_family=info, deep_history_evaluations=deep, unmerged_length=L, cross_family_runs=nc,
+        exhaustive=all(v["closed"] for v in info.values()), per_family=info, deep_history_evaluations=deep, lattice_sweep_evaluations=lat, unmerged_length=L, cross_family_runs=nc,
         samples=[[World("GKLS2", refs["GKLS2"]).show(k) for k in (0, 1, 3, 9, 4)]],
     )
     res.assumptions = ["members and points limited to the alphabet (two members, two or three points per family, one of them "
@@ -378,6 +439,8 @@ def replay(rec):
         return []
     if rec["driver"] == "deep":
         return deep_history(dict(fam=rec["fam"], refs=refs[rec["fam"]], reps=rec["reps"]))[1]
+    if rec["driver"] == "lattice":
+        return lattice_sweep(rec)[1]
     if rec["driver"] == "cross":
         return [v["message"] for v in cross_family(refs)[1]]
     return [rec.get("message", "")]
